@@ -385,10 +385,12 @@ func (cr *ChunkReader) parseChunkHeaderBytes(header []byte, l *int) (int64, stri
 	if err != nil {
 		return cr.handleRdrErr(err, header)
 	}
-	chunkSize, err := strconv.ParseInt(chunkSizeStr, 16, 64)
-	if err != nil || chunkSize < 0 {
+	// a bare hexadecimal number: no sign ("+a", "-0")
+	size, err := strconv.ParseUint(chunkSizeStr, 16, 63)
+	if err != nil {
 		return 0, "", 0, errInvalidChunkFormat
 	}
+	chunkSize := int64(size)
 
 	// read the chunk signature
 	err = readAndSkip(rdr, 'c', 'h', 'u', 'n', 'k', '-', 's', 'i', 'g', 'n', 'a', 't', 'u', 'r', 'e', '=')
